@@ -94,10 +94,24 @@ def tok_4(ctx, rep, order=False):
                       'DEDENT, and a store to the top entry to a yield of ERROR_DEDENT')
     f = ctx.prog.func(TOK, 'tokenize_lines')
     # the indentation stack: the parameter / local named in `indents.append`
-    stack = 'indents'
-    funcs = [f] + list(f.nested.values())
+    stack0 = 'indents'
+    funcs = [(f, stack0)] + [(g, stack0) for g in f.nested.values()]
+    # helpers of the module that are handed the stack (a closure that became a function with explicit parameters)
+    for g0, _s in list(funcs):
+        for c in walk_own(g0.node):
+            if isinstance(c, ast.Call) and isinstance(c.func, ast.Name):
+                h = f.mod.funcs.get(c.func.id)
+                if h is None or h.cls is not None or any(h is x for x, _ in funcs):
+                    continue
+                ps = h.params()
+                for i, a in enumerate(c.args):
+                    if isinstance(a, ast.Name) and a.id == stack0 and i < len(ps):
+                        funcs.append((h, ps[i]))
+                for kw in c.keywords:
+                    if isinstance(kw.value, ast.Name) and kw.value.id == stack0 and kw.arg in ps:
+                        funcs.append((h, kw.arg))
     n_sites = 0
-    for g in funcs:
+    for g, stack in funcs:
         for n in walk_own(g.node):
             kind = None
             if isinstance(n, ast.Call) and isinstance(n.func, ast.Attribute) \
